@@ -42,8 +42,10 @@ def run(tier):
             {'label': 'duration-vectors-n<=3-all', 'harness': HEnum(timing_states(max_n=3), 'timing'), 'monitors': mon},
             {'label': 'duration-vectors-n<=4', 'harness': HEnum(timing_states(max_n=4, explicit=('', 'se'), edstarts=(True, False),
                                                                               kinds=('dur', 'text', 'both', 'zero', 'none')), 'timing4'), 'monitors': mon},
-            {'label': 'reordering-closure', 'harness': HStory(pool=6, cap=5, max_list=2, timing=TIMING, explicit=EXPL, layouts=('before', 'between'),
-                                                             no_expand=()), 'monitors': mon},
+            {'label': 'reordering-closure', 'harness': HStory(pool=6, cap=4, max_list=2, timing=TIMING, explicit=EXPL, layouts=('before',),
+                                                             no_expand=()), 'monitors': mon, 'opts': {'time_cap': 1500}},
+            {'label': 'reordering-closure-between', 'harness': HStory(pool=4, cap=4, max_list=1, timing=TIMING, explicit=EXPL, layouts=('between',), nmeta=2,
+                                                                     no_expand=()), 'monitors': mon, 'opts': {'time_cap': 900}},
             {'label': 'reordering-closure-no-roEdStart', 'harness': HStory(pool=4, cap=4, max_list=2, timing=TIMING, explicit=EXPL, layouts=('after',),
                                                                           no_expand=(), edstart=False), 'monitors': mon},
         ]
